@@ -28,7 +28,7 @@ class P:
     rule = ("EXEC with operands bound in the context: every built-in infix operator x every ordered pair from a 50-value pool "
             "covering all six value types (numbers: 0, +-1, fractions, equal pairs with different scales, i64 and 96-bit extremes; "
             "booleans; strings incl. empty and multi-byte; lists incl. empty, nested, mixed; maps; None), every prefix/postfix "
-            "operator x every pool value, the four functions on 0..3 pool values, plus random nested programs. The documented "
+            "operator x every pool value, the four functions on 0..3 pool values, plus random nested programs; every compound assignment with its BASE operator redirected to a user handler and every base operator with its compound form redirected (fresh process each). The documented "
             "value (vlib/props/evalspec.py, exact rationals) is the oracle; value, mantissa and scale are compared with the model. "
             "Non-trivial = distinct (program, operands).")
     assumptions = ["division scale and the rounding region are compared by value only", "rust_decimal's `%` known finding D21"]
@@ -60,7 +60,20 @@ class P:
                 items.append(("CV:1:%s:%s EXEC:1:%s" % (hx("x"), a, hx("%s(x)" % f)), ("func", f, [a])))
                 for b in vals[:: (3 if tier == "quick" else 1)]:
                     items.append(("CV:1:%s:%s CV:1:%s:%s EXEC:1:%s" % (hx("x"), a, hx("y"), b, hx("%s(x, y, x)" % f)), ("func", f, [a, b, a])))
-        cases = flow.mk_cases("ops", items)
+        # a built-in operator is what it is whatever ELSE has been registered: every compound assignment with its base operator
+        # redirected to a user handler (`-` re-bound, `-=` not), and every base operator with its compound form redirected
+        prec = {op: (p_, r_) for (op, p_, s_, r_) in infix}
+        redirected = []
+        for (op, _p, setter, _r) in infix:
+            other = op[:-1] if (setter and len(op) > 1) else (op + "=" if (op + "=") in prec and not setter else None)
+            if not other or other not in prec: continue
+            for i, a in enumerate(vals):
+                for j, b in enumerate(vals):
+                    if (i * 5 + j * 3 + len(op)) % (9 if tier == "quick" else 2) != 0: continue
+                    src = ("x %s y; x" % op) if setter else ("x %s y" % op)
+                    reg = "H:61:rs(%s) REGI:%s:%x:%d:%d:61" % (hx("h61"), hx(other), prec[other][0], 0 if setter else 1, 1 if prec[other][1] else 0)
+                    redirected.append(("%s CV:1:%s:%s CV:1:%s:%s EXEC:1:%s" % (reg, hx("x"), a, hx("y"), b, hx(src)), ("infix", op, a, b, setter)))
+        cases = flow.mk_cases("ops", items) + flow.mk_cases("redirected", redirected)
         # conditional selection, list/map construction
         misc = []
         for c in vals:
